@@ -7,7 +7,8 @@
 EXTENDS Integers, Sequences, FiniteSets, TLC, Json
 CONSTANTS Sim, MaxBlocks, Family
 
-RECURSIVE Cat(_), Rep(_, _)
+RECURSIVE Cat(_), Rep(_, _), FoldSum(_)
+FoldSum(q) == IF q = <<>> THEN 0 ELSE Head(q) + FoldSum(Tail(q))
 Cat(ss) == IF ss = <<>> THEN "" ELSE Head(ss) \o Cat(Tail(ss))
 Rep(c, n) == IF n <= 0 THEN "" ELSE c \o Rep(c, n - 1)
 JoinWith(ss, sep) == Cat([i \in 1 .. Len(ss) |-> (IF i > 1 THEN sep ELSE "") \o ss[i]])
@@ -93,9 +94,9 @@ LineHtml(il, cx) == JoinWith([j \in 1 .. Len(il) |-> InlHtml(il[j], cx)], " ")
 Label(il) == Cat([j \in 1 .. Len(il) |-> il[j].a])
 
 \* ---- blocks ----------------------------------------------------------------------------------------------------------
-\* spelling parameters sp: [us, bullet ("*" "+" "-"), lead (0..3 leading spaces), closed (ATX closing hashes), ul (setext underline length), fence (3..5), hr (1..3),
+\* spelling parameters sp: [us, bullet ("*" "+" "-"), lead (0..3 leading spaces), closed (ATX closing hashes: 0 none, 1 as many as opening, 2 two more, 3 a single one -- "the closing hashes need not match"), ul (setext underline length), fence (3..5), hr (1..3),
 \*                          pipes (table rows written with outer pipes)]
-NoT == [al |-> <<>>, hd |-> <<>>, rows |-> <<>>, cap |-> ""]
+NoT == [al |-> <<>>, hd |-> <<>>, rows |-> <<>>, cap |-> "", sp |-> <<>>]
 B(k) == [k |-> k, l |-> 1, il |-> <<>>, s |-> <<>>, d |-> <<>>, o |-> FALSE, z |-> FALSE, info |-> "", t |-> NoT]
 Para(il) == [B("para") EXCEPT !.il = il]
 Atx(l, il) == [B("atx") EXCEPT !.l = l, !.il = il]
@@ -110,7 +111,9 @@ NList(o, z, io, d) == [B("nlist") EXCEPT !.o = o, !.z = z, !.info = IF io THEN "
 \* a list whose first item holds two paragraphs (which makes the list loose): d = <<first, continuation, last>>
 PItem(o, d) == [B("pitem") EXCEPT !.o = o, !.d = d]
 \* table: al = one alignment per column ("l" "c" "r" "n"), hd = header cells, rows = body rows, each cell an inline list; cap = caption word or ""
-Table(al, hd, rows, cap) == [B("table") EXCEPT !.t = [al |-> al, hd |-> hd, rows |-> rows, cap |-> cap]]
+Table(al, hd, rows, cap) == [B("table") EXCEPT !.t = [al |-> al, hd |-> hd, rows |-> rows, cap |-> cap, sp |-> <<>>]]
+\* sp = one sequence of widths per body row: cell j of row r spans sp[r][j] columns (written with that many pipes after it: "| x || y |")
+SpanTable(al, hd, rows, sp) == [B("table") EXCEPT !.t = [al |-> al, hd |-> hd, rows |-> rows, cap |-> "", sp |-> sp]]
 \* definition list: t.rows = groups, each group <<terms, definitions>>, both sequences of inline lists
 DefList(groups) == [B("deflist") EXCEPT !.t = [NoT EXCEPT !.rows = groups]]
 
@@ -125,14 +128,15 @@ Prefix(text, first, rest) ==
 HrSrc(n) == CASE n = 1 -> "* * *" [] n = 2 -> "---" [] OTHER -> "_ _ _ _"
 AlSrc(a) == CASE a = "l" -> ":--" [] a = "c" -> ":-:" [] a = "r" -> "--:" [] OTHER -> "---"
 RowSrc(cells, pipes) == (IF pipes THEN "| " ELSE "") \o JoinWith(cells, " | ") \o (IF pipes THEN " |" ELSE "") \o "\n"
-TableSrc(t, sp) == LET pipes == sp.pipes \/ t.al[1] \in {"l", "c"} \/ Len(t.al) = 1 IN        \* a row starting with ':' or having no inner pipe needs the outer ones
+TableSrc(t, sp) == LET pipes == sp.pipes \/ t.al[1] \in {"l", "c"} \/ Len(t.al) = 1 \/ t.sp # <<>> IN        \* a row starting with ':' or having no inner pipe needs the outer ones
   RowSrc([j \in 1 .. Len(t.hd) |-> LineSrc(t.hd[j], sp.us)], pipes)
   \o (IF pipes THEN "|" ELSE "") \o JoinWith([j \in 1 .. Len(t.al) |-> AlSrc(t.al[j])], "|") \o (IF pipes THEN "|" ELSE "") \o "\n"
-  \o Cat([r \in 1 .. Len(t.rows) |-> RowSrc([j \in 1 .. Len(t.rows[r]) |-> LineSrc(t.rows[r][j], sp.us)], pipes)])
+  \o Cat([r \in 1 .. Len(t.rows) |-> IF t.sp = <<>> THEN RowSrc([j \in 1 .. Len(t.rows[r]) |-> LineSrc(t.rows[r][j], sp.us)], pipes)
+                                       ELSE "|" \o Cat([j \in 1 .. Len(t.rows[r]) |-> " " \o LineSrc(t.rows[r][j], sp.us) \o " " \o Rep("|", t.sp[r][j])]) \o "\n"])
   \o (IF t.cap # "" THEN "[" \o t.cap \o "]\n" ELSE "")
 BlockSrc(b, sp) ==
   CASE b.k = "para"     -> LineSrc(b.il, sp.us) \o "\n"
-    [] b.k = "atx"      -> Rep("#", b.l) \o " " \o LineSrc(b.il, sp.us) \o (IF sp.closed THEN " " \o Rep("#", b.l) ELSE "") \o "\n"
+    [] b.k = "atx"      -> Rep("#", b.l) \o " " \o LineSrc(b.il, sp.us) \o (CASE sp.closed = 0 -> "" [] sp.closed = 1 -> " " \o Rep("#", b.l) [] sp.closed = 2 -> " " \o Rep("#", b.l + 2) [] OTHER -> " #") \o "\n"
     [] b.k = "setext"   -> LineSrc(b.il, sp.us) \o "\n" \o Rep(IF b.l = 1 THEN "=" ELSE "-", sp.ul) \o "\n"
     [] b.k = "hr"       -> HrSrc(sp.hr) \o "\n"
     [] b.k = "fenced"   -> Rep("`", sp.fence) \o b.info \o "\n" \o Cat([j \in 1 .. Len(b.s) |-> b.s[j].a \o "\n"]) \o Rep("`", sp.fence) \o "\n"
@@ -177,12 +181,16 @@ CodeLines == { [a |-> "plain code", b |-> "plain code"], [a |-> "a < b && c", b 
 Item(b, loose, cx) == IF b.k = "para" /\ ~loose THEN LineHtml(b.il, cx) ELSE BlockHtml(b, cx)
 AlStyle(a) == CASE a = "l" -> " style=\"text-align:left;\"" [] a = "c" -> " style=\"text-align:center;\"" [] a = "r" -> " style=\"text-align:right;\"" [] OTHER -> ""
 RowHtml(tag, cells, al, cx) == "<tr>" \o Cat([j \in 1 .. Len(cells) |-> "<" \o tag \o AlStyle(al[j]) \o ">" \o LineHtml(cells[j], cx) \o "</" \o tag \o ">"]) \o "</tr>"
+\* a cell takes the alignment of the COLUMN it starts in (the widths of the cells before it added up), and says how many columns it covers
+ColOf(spans, j) == 1 + FoldSum([i \in 1 .. (j - 1) |-> spans[i]])
+SpanRowHtml(cells, spans, al, cx) == "<tr>" \o Cat([j \in 1 .. Len(cells) |-> "<td" \o AlStyle(al[ColOf(spans, j)]) \o (IF spans[j] > 1 THEN " colspan=\"" \o ToString(spans[j]) \o "\"" ELSE "") \o ">"
+                                                       \o LineHtml(cells[j], cx) \o "</td>"]) \o "</tr>"
 TableHtml(t, cx) ==
   "<table" \o (IF t.cap # "" THEN " id=\"" \o t.cap \o "\"" ELSE "") \o ">"
   \o (IF t.cap # "" THEN "<caption style=\"caption-side: bottom;\">" \o t.cap \o "</caption>" ELSE "")
   \o "<colgroup>" \o Cat([j \in 1 .. Len(t.al) |-> IF t.al[j] = "n" THEN "<col />" ELSE "<col" \o AlStyle(t.al[j]) \o "/>"]) \o "</colgroup>"
   \o "<thead>" \o RowHtml("th", t.hd, t.al, cx) \o "</thead>"
-  \o "<tbody>" \o Cat([r \in 1 .. Len(t.rows) |-> RowHtml("td", t.rows[r], t.al, cx)]) \o "</tbody></table>"
+  \o "<tbody>" \o Cat([r \in 1 .. Len(t.rows) |-> IF t.sp = <<>> THEN RowHtml("td", t.rows[r], t.al, cx) ELSE SpanRowHtml(t.rows[r], t.sp[r], t.al, cx)]) \o "</tbody></table>"
 BlockHtml(b, cx) ==
   CASE b.k = "para"     -> IF cx.mode = "mmd" /\ Len(b.il) = 1 /\ b.il[1].k = "img"
                            THEN "<figure>" \o InlHtml(b.il[1], cx) \o "<figcaption>" \o b.il[1].a \o "</figcaption></figure>"      \* an image alone in a paragraph is a figure (MMD)
@@ -227,6 +235,11 @@ Cells == {<<Inl("lem", "beta", "http://u.rl/p", "")>>, <<Inl("code", "a & b", ""
 Als == {<<"l", "c", "r">>, <<"n", "n">>, <<"c">>, <<"n", "r">>, <<"r", "n", "l">>}
 RowsFor(n) == {<<[j \in 1 .. n |-> c]>> : c \in Cells} \cup {<<[j \in 1 .. n |-> <<T("x1")>>], [j \in 1 .. n |-> IF j = 1 THEN c ELSE <<T("beta")>>]>> : c \in Cells}
 Tables == UNION {{Table(al, [j \in 1 .. Len(al) |-> IF j = 2 THEN <<Inl("em", "beta", "", "")>> ELSE <<T("alpha")>>], rows, cap) : rows \in RowsFor(Len(al)), cap \in {"", "caption"}} : al \in Als}
+\* rows whose cells cover several columns, in every position of the row (alignments chosen so that a cell counted by position instead of by column shows)
+SpanTables == {SpanTable(al, [j \in 1 .. Len(al) |-> <<T("alpha")>>], << [j \in 1 .. Len(w) |-> IF j = 1 THEN c ELSE <<T("beta")>>] >>, <<w>>) :
+                 al \in {<<"l", "c", "r">>, <<"r", "n", "l">>}, w \in {<<2, 1>>, <<1, 2>>, <<3>>, <<1, 1, 1>>}, c \in {<<T("x1")>>, <<Inl("em", "beta", "", "")>>}}
+              \cup {SpanTable(<<"l", "c", "r", "n">>, [j \in 1 .. 4 |-> <<T("alpha")>>], << <<T1("x1"), T1("beta"), T1("alpha")>>, <<T1("x1"), T1("beta")>> >>, <<w1, w2>>) :
+                      w1 \in {<<2, 1, 1>>, <<1, 2, 1>>, <<1, 1, 2>>}, w2 \in {<<3, 1>>, <<2, 2>>, <<1, 3>>}}
 DefTexts == {<<T("alpha")>>, <<Inl("em", "beta", "", ""), T("x1")>>, <<Inl("code", "co de", "", "")>>, <<RefA>>, <<T("x1"), Inl("ent", "<", "&lt;", "")>>}
 Grp(terms, defs) == <<terms, defs>>
 DefLists == {DefList(<<Grp(<<t>>, <<d1>>)>>) : t \in DefTexts, d1 \in DefTexts}
@@ -242,7 +255,7 @@ BigParas == {Para(RepInl(Inl("ent", "1 < 2", "1 &lt; 2", ""), n) \o tail) : n \i
                tail \in {<<Inl("link", "alpha", "http://u.rl/p", "")>>, <<Inl("em", "beta", "", ""), Inl("img", "alt", "i.png", ""), Inl("auto", "http://a.b/c", "", "")>>}}
 Singles == {Para(p) : p \in ParaLines} \cup {Fenced("", <<TrailSp, LeadSp>>), Fenced("c", <<LeadSp, TrailSp, LeadSp>>), Indented(<<TrailSp, LeadSp>>)} \cup {Atx(l, h) : l \in {1, 2, 3, 6}, h \in HeadTexts} \cup {Setext(l, h) : l \in {1, 2}, h \in HeadTexts} \cup {Hr}
            \cup {Fenced(i, <<c>>) : i \in {"", "c"}, c \in CodeLines} \cup {Fenced("", <<c1, c2>>) : c1 \in CodeLines, c2 \in CodeLines} \cup {Indented(<<c>>) : c \in CodeLines}
-           \cup Tables \cup DefLists
+           \cup Tables \cup SpanTables \cup DefLists
 Simple == {Para(<<T("alpha")>>), Para(<<Inl("st", "x1", "", ""), T("beta")>>), Atx(2, <<T("beta")>>), Setext(1, <<T("x1")>>), Hr,
            Fenced("", <<[a |-> "plain code", b |-> "plain code"]>>), Indented(<<[a |-> "a < b && c", b |-> "a &lt; b &amp;&amp; c"]>>)}
 SomeTable == Table(<<"n", "r">>, <<T1("alpha"), T1("beta")>>, << <<EmB, T1("x1")>> >>, "")
@@ -258,11 +271,11 @@ Independent == Simple \cup {Quote(<<c>>) : c \in Leaf} \cup {SomeTable, SomeDl} 
 \* documents whose notes and references interleave: numbering by first reference, definitions shared
 NoteDocs == {<<Para(<<a>>), b, Para(<<c>>)>> : a \in {FnB, RefB}, b \in {Hr, SomeTable, Quote(<<Para(<<FnA>>)>>)}, c \in {FnA, FnB, RefA, RefB}}
 Sps == {[us |-> u, bullet |-> bl, lead |-> ld, closed |-> cl, ul |-> n, fence |-> f, hr |-> h, pipes |-> pp] :
-          u \in Pick(BOOLEAN), bl \in Pick({"*", "+", "-"}), ld \in Pick({0, 2}), cl \in Pick(BOOLEAN), n \in Pick({2, 7}), f \in Pick({3, 5}), h \in Pick({1, 2, 3}), pp \in Pick(BOOLEAN)}
-DefaultSp == [us |-> FALSE, bullet |-> "*", lead |-> 0, closed |-> FALSE, ul |-> 5, fence |-> 3, hr |-> 1, pipes |-> TRUE]
+          u \in Pick(BOOLEAN), bl \in Pick({"*", "+", "-"}), ld \in Pick({0, 2}), cl \in Pick(0 .. 3), n \in Pick({2, 7}), f \in Pick({3, 5}), h \in Pick({1, 2, 3}), pp \in Pick(BOOLEAN)}
+DefaultSp == [us |-> FALSE, bullet |-> "*", lead |-> 0, closed |-> 0, ul |-> 5, fence |-> 3, hr |-> 1, pipes |-> TRUE]
 \* spelling variants that matter for a block kind (to keep the enumeration small)
 SpFor(b) == CASE b.k = "para" -> {[DefaultSp EXCEPT !.us = u] : u \in BOOLEAN}
-              [] b.k = "atx" -> {[DefaultSp EXCEPT !.closed = c] : c \in BOOLEAN}
+              [] b.k = "atx" -> {[DefaultSp EXCEPT !.closed = c] : c \in 0 .. 3}
               [] b.k = "setext" -> {[DefaultSp EXCEPT !.ul = n] : n \in {1, 2, 3, 12}}
               [] b.k = "hr" -> {[DefaultSp EXCEPT !.hr = h] : h \in {1, 2, 3}}
               [] b.k = "fenced" -> {[DefaultSp EXCEPT !.fence = f] : f \in {3, 4, 5}}
